@@ -219,3 +219,46 @@ Example C08_example_remove :
   next_run c = 4%Z /\ length (ix c Ttarget) = 2 /\
   reset_ptab c 3 [84] [116] s_alg = Some [((3%Z, 0, 0, 0, 0, 0), 7%Z)].
 Proof. vm_compute. repeat split; reflexivity. Qed.
+
+(* ---- the model functions ARE the python source (translation + proof) ------------------
+   Gen/UtilGen.v is regenerated on every run from dawgie/db/shelve/util.py
+   (construct, dissect, subset) and dawgie.Version.asstring by the fail-closed
+   translator tools/translate/util2coq.py.  The generated definitions are
+   equal to the hand-written model functions for ALL arguments (no guard), so
+   every theorem above about Catalogue.construct/dissect/subset is a theorem
+   about the source text of today; a semantic edit of the python breaks one of
+   these three obligations.  (Qualified names on purpose: nothing is imported.) *)
+From DV Require Gen.UtilGen Proofs.UtilGenEq.
+
+Theorem C08_construct_is_source : forall n p v,
+  UtilGen.construct n p v = Catalogue.construct n p v.
+Proof. exact UtilGenEq.construct_gen_eq. Qed.
+Print Assumptions C08_construct_is_source.
+
+Theorem C08_dissect_is_source : forall s, UtilGen.dissect s = Catalogue.dissect s.
+Proof. exact UtilGenEq.dissect_gen_eq. Qed.
+Print Assumptions C08_dissect_is_source.
+
+Theorem C08_subset_is_source : forall t n parents,
+  UtilGen.subset t n parents = Catalogue.subset t n parents.
+Proof. exact UtilGenEq.subset_gen_eq. Qed.
+Print Assumptions C08_subset_is_source.
+
+(* a transfer: injectivity of the names, stated on the generated function *)
+Theorem C08_construct_injective_source : forall n p v n' p' v',
+  UtilGen.construct n (Some p) (Some v) = UtilGen.construct n' (Some p') (Some v') ->
+  n = n' /\ p = p' /\ v = v'.
+Proof.
+  intros n p v n' p' v'. rewrite !UtilGenEq.construct_gen_eq. apply CP_construct_inj.
+Qed.
+Print Assumptions C08_construct_injective_source.
+
+Example C08_source_example :
+  UtilGen.dissect (UtilGen.construct s_alg2 (Some 3) (Some (1, 0, 2)%Z))
+    = Some (Some 3, s_alg2, Some (1, 0, 2)%Z) /\
+  UtilGen.construct s_alg (Some 12) (Some (1, 10, 0)%Z)
+    <> UtilGen.construct s_alg (Some 1) (Some (1, 10, 0)%Z) /\
+  map snd (UtilGen.subset [(UtilGen.construct s_alg (Some 0) (Some (1, 0, 0)%Z), 0);
+                           (UtilGen.construct s_alg2 (Some 0) (Some (1, 0, 0)%Z), 1)]
+                          s_alg [0]) = [0].
+Proof. vm_compute. repeat split; try reflexivity. discriminate. Qed.
